@@ -32,6 +32,24 @@ CASES = [
      "self.unused_public_keys.append(public_key)", "self.unused_public_keys.insert(0, public_key)", 0),
     ("harmless: subsidy written with a shift", "C16", "skepticoin/consensus.py",
      "    return INITIAL_SUBSIDY // (2 ** halvings)  # type: ignore", "    return INITIAL_SUBSIDY >> halvings", 0),
+    ("harmless: id of the new block computed first", "C04", "skepticoin/coinstate.py",
+     "        if block.previous_block_hash == b'\\00' * 32:\n            unspent_transaction_outs: immutables.Map[OutputReference, Output] = immutables.Map()",
+     "        block_hash = block.hash()\n        if block.previous_block_hash == b'\\00' * 32:\n            unspent_transaction_outs: immutables.Map[OutputReference, Output] = immutables.Map()", 0),
+    ("harmless: ledger check before the stand-alone check", "C13", "skepticoin/networking/manager.py",
+     "                validate_non_coinbase_transaction_by_itself(transaction)\n\n                assert self.coinstate.current_chain_hash\n\n"
+     "                validate_non_coinbase_transaction_in_coinstate(\n                    transaction, self.coinstate.current_chain_hash, self.coinstate)",
+     "                assert self.coinstate.current_chain_hash\n\n"
+     "                validate_non_coinbase_transaction_in_coinstate(\n                    transaction, self.coinstate.current_chain_hash, self.coinstate)\n"
+     "                validate_non_coinbase_transaction_by_itself(transaction)", 0),
+    ("harmless: extra log line in the connect handler", "C19", "skepticoin/networking/manager.py",
+     "        key = (remote_peer.host, remote_peer.port, remote_peer.direction)\n        if key in self.connected_peers:",
+     "        key = (remote_peer.host, remote_peer.port, remote_peer.direction)\n        self.local_peer.logger.info('peer %s' % (key,))\n        if key in self.connected_peers:", 0),
+    ("harmless: spent outputs recorded through a loop", "C14", "skepticoin/wallet.py",
+     "                wallet.spent_transaction_outputs.update(input.output_reference for input in inputs)",
+     "                wallet.spent_transaction_outputs.update([input.output_reference for input in inputs])", 0),
+    ("harmless: merkle pairs hashed via a helper variable", "C17", "skepticoin/merkletree.py",
+     "            new_list.append(sha256d(chunk[0] + chunk[1]))",
+     "            pair = chunk[0] + chunk[1]\n            new_list.append(sha256d(pair))", 0),
 ]
 
 
